@@ -120,25 +120,78 @@ fn render_case<F: Backend + RenderHints>(
     let mat = cfg.mat().cast::<f64>();
     let free = s.free.unwrap_or(0.0) as f64;
     let (mut undecidable, mut total) = (0u64, 0u64);
+    let (mut exact_px, mut nan_px) = (0u64, 0u64);
     for j in 0..h as usize {
         for i in 0..w as usize {
             let p = mat * nalgebra::Vector3::new(i as f64, j as f64, 1.0);
             let vars = [p[0], p[1], z as f64, 0.0, 0.0, free];
-            let (v, mag) = scene::eval64(&s.prog, &vars);
+            let (v, mag, exact) = scene::eval64x(&s.prog, &vars);
             total += 1;
+            let px = img[(j, i)];
+            // exact case: the position and every intermediate are f32-representable,
+            // so the renderer computes exactly v: its sign, an exact zero (of either
+            // sign: not negative) and a NaN are certain, not within a tolerance
+            let pex = {
+                let ex = |x: f64| x.is_finite() && (x as f32) as f64 == x;
+                (0..2).all(|r| {
+                    let t = [mat[(r, 0)] * i as f64, mat[(r, 1)] * j as f64, mat[(r, 2)]];
+                    (1u32..8).all(|mask| ex((0..3).filter(|c| (mask >> c) & 1 == 1).map(|c| t[c]).sum()))
+                })
+            };
+            if exact && pex {
+                exact_px += 1;
+                if px.inside() != (v < 0.0) {
+                    cx.violation(
+                        format!("{} pixel inside/outside differs from the sign of the shape", F::NAME),
+                        desc(),
+                        format!("pixel ({i},{j}) at model position ({},{},{z}): reported {} ({:?}), shape evaluates EXACTLY to {v:?}", p[0], p[1], if px.inside() { "inside" } else { "outside" }, px.unpack()),
+                    );
+                    return;
+                }
+                if pixel_perfect {
+                    match px.unpack() {
+                        DistancePixel::Value(g) if (g as f64 == v) || (g.is_nan() && v.is_nan()) => (),
+                        other => {
+                            cx.violation(
+                                format!("{} pixel-perfect value differs from the shape's value", F::NAME),
+                                desc(),
+                                format!("pixel ({i},{j}) at model position ({},{}): image carries {other:?}, shape evaluates EXACTLY to {v:?}", p[0], p[1]),
+                            );
+                            return;
+                        }
+                    }
+                }
+                continue;
+            }
             // the renderer computes the sample position in f32: the reference is
             // also taken at positions perturbed by that rounding, which matters
             // where the shape is ill-conditioned (sqrt at the edge of its domain)
             let dpos = 2e-6 * (1.0 + p[0].abs().max(p[1].abs()));
             let (mut vmin, mut vmax, mut any_nan) = (v, v, v.is_nan());
+            let mut all_nan = v.is_nan();
             for (dx, dy) in [(dpos, 0.0), (-dpos, 0.0), (0.0, dpos), (0.0, -dpos)] {
                 let (w, _) = scene::eval64(&s.prog, &[p[0] + dx, p[1] + dy, z as f64, 0.0, 0.0, free]);
                 if w.is_nan() {
                     any_nan = true;
                 } else {
+                    all_nan = false;
                     vmin = vmin.min(w);
                     vmax = vmax.max(w);
                 }
+            }
+            if all_nan {
+                // certainly NaN: not negative, and in pixel-perfect mode the pixel carries NaN
+                nan_px += 1;
+                let ok = !px.inside() && (!pixel_perfect || matches!(px.unpack(), DistancePixel::Value(g) if g.is_nan()));
+                if !ok {
+                    cx.violation(
+                        format!("{} pixel at which the shape is NaN is not reported as such", F::NAME),
+                        desc(),
+                        format!("pixel ({i},{j}) at model position ({},{}): the shape evaluates to NaN in a whole neighbourhood, the image carries {:?}", p[0], p[1], px.unpack()),
+                    );
+                    return;
+                }
+                continue;
             }
             if any_nan {
                 // at or beyond the edge of the shape's domain (sqrt of a negative
@@ -147,7 +200,6 @@ fn render_case<F: Backend + RenderHints>(
                 continue;
             }
             let tol = 2e-5 * (1.0 + mag);
-            let px = img[(j, i)];
             if pixel_perfect {
                 match px.unpack() {
                     DistancePixel::Value(g) => {
@@ -191,6 +243,8 @@ fn render_case<F: Backend + RenderHints>(
         }
     }
     cx.add("pixels_checked", total - undecidable);
+    cx.add("pixels_decided_exactly", exact_px);
+    cx.add("pixels_certainly_nan", nan_px);
     cx.add("pixels_undecidable", undecidable);
 }
 
